@@ -62,7 +62,9 @@ theorem step_closed_mono {s s' : State} {a : Action} (l : Link s) (h : step s a 
           all_goals repeat' split at h1
           all_goals first | (simp at h1; done) | skip
           all_goals (simp only [Option.some.injEq] at h1; subst h1; exact hc)
-        · simp at h1
+        · split at h1
+          · simp only [stepRetPanic, Option.some.injEq] at h1; subst h1; exact hc
+          · simp at h1
       | take pc o add =>
         simp only at h1
         split at h1
@@ -71,7 +73,9 @@ theorem step_closed_mono {s s' : State} {a : Action} (l : Link s) (h : step s a 
           all_goals repeat' split at h1
           all_goals first | (simp at h1; done) | skip
           all_goals (simp only [Option.some.injEq] at h1; subst h1; exact hc)
-        · simp at h1
+        · split at h1
+          · simp only [stepTakePanic, Option.some.injEq] at h1; subst h1; exact hc
+          · simp at h1
       | resize n c pc old =>
         simp only at h1
         split at h1
